@@ -130,10 +130,10 @@ pub fn spec(id: &str) -> Option<PropSpec> {
         "C03" => PropSpec {
             id: "C03",
             level: "exploration",
-            families: vec![(Family::C03, 100)],
-            quick_runs: 20_000,
+            families: vec![(Family::C03, 80), (Family::C11, 20)],
+            quick_runs: 25_000,
             thorough_runs: 1_500_000,
-            rule: "one run = one seeded plan (1..8 inbound PUBLISH QoS0/1/2 inline or streamed, interleaved with PUBREL/PINGREQ/SUBSCRIBE/UNSUBSCRIBE; gated handlers completing ok/negative/error, immediately or later; random fragmentation) executed under a seeded placement of external events; distinct = distinct abstract history signature; non-trivial = two publish handlers overlapped, a handler failed, or a payload was streamed in pieces",
+            rule: "one run = one seeded plan (1..8 inbound PUBLISH QoS0/1/2 inline or streamed, interleaved with PUBREL/PINGREQ/SUBSCRIBE/UNSUBSCRIBE; gated handlers completing ok/negative/error, immediately or later; random fragmentation) executed under a seeded placement of external events; a fifth of the runs are C11's histories over the ids {1,2,3}, where identifiers are re-used after their exchange completed (also after a refusing PUBREC): a PUBLISH whose identifier is free must reach its handler, a success PUBCOMP needs an accepted QoS 2 publish waiting for its PUBREL; distinct = distinct abstract history signature; non-trivial = two publish handlers overlapped, a handler failed, or a payload was streamed in pieces",
             nontrivial: nt_c03,
             assumptions: base,
         },
